@@ -14,14 +14,14 @@ Local Open Scope Z_scope.
 (* hypotheses shared by all statements: buffer size in range (index + 1 never wraps in size_t), thread 0 runs
    producer-side operations only and thread 1 consumer-side operations only (size/empty/full allowed on both) *)
 Definition C35_domain (k : Z) (p0 p1 : list op) : Prop :=
-  2 <= k < 2 ^ 63 /\ Forall prod_op p0 /\ Forall cons_op p1.
+  2 <= k < 2 ^ 63 /\ Forall prod_op p0 /\ Forall cons_op p1.   (* = Proofs.C35Proofs.spsc_domain *)
 
 (* exactly-once + FIFO, at EVERY reachable state (also in the middle of operations): what was accepted = what was
    delivered, in the same order, followed by what is in the ring.  Hence no element is delivered twice, none is lost,
    none is invented, pops return values in push order, and at quiescence delivered ++ contents = accepted. *)
 Theorem C35_exactly_once_in_order : forall k p0 p1 s, C35_domain k p0 p1 ->
   reach step (init k p0 p1) s -> pushed s = popped s ++ contents s.
-Proof. intros k p0 p1 s (Kb & F0 & F1) R. apply spsc_exactly_once_in_order_inv. eapply spsc_inv; eauto. Qed.
+Proof. exact spsc_exactly_once_in_order. Qed.
 Print Assumptions C35_exactly_once_in_order.
 
 (* bounded: the ring never holds more than capacity() = kBufferSize - 1 elements, also counting the elements a push
@@ -29,7 +29,7 @@ Print Assumptions C35_exactly_once_in_order.
 Theorem C35_bounded : forall k p0 p1 s, C35_domain k p0 p1 -> reach step (init k p0 p1) s ->
   zlen (contents s) = occupancy s /\ 0 <= occupancy s <= K s - 1 /\
   zlen (pushed s) + zlen (wl (tpc (th0 s))) - zlen (popped s) <= K s - 1.
-Proof. intros k p0 p1 s (Kb & F0 & F1) R. apply spsc_bounded_inv. eapply spsc_inv; eauto. Qed.
+Proof. exact spsc_bounded. Qed.
 Print Assumptions C35_bounded.
 
 (* a push is rejected iff the ring is full when the producer loads head (then nothing else happens), accepted otherwise *)
@@ -37,7 +37,7 @@ Theorem C35_push_ok_iff_not_full_as_observed : forall k p0 p1 s v ct ch s' ch' s
   reach step (init k p0 p1) s -> tpc (th0 s) = PPushLoadHead v ct -> step s 0 ch = Some (s', ch', site) ->
   (occupancy s = K s - 1 /\ res (th0 s') = (r_pushfail, v) :: res (th0 s)) \/
   (occupancy s < K s - 1 /\ tpc (th0 s') = PPushWrite v ct).
-Proof. intros k p0 p1 s v ct ch s' ch' site (Kb & F0 & F1) R. apply push_ok_iff_not_full_inv. eapply spsc_inv; eauto. Qed.
+Proof. exact push_ok_iff_not_full_as_observed. Qed.
 Print Assumptions C35_push_ok_iff_not_full_as_observed.
 
 (* a pop is rejected iff the ring is empty when the consumer loads tail, accepted otherwise *)
@@ -45,19 +45,19 @@ Theorem C35_pop_ok_iff_not_empty_as_observed : forall k p0 p1 s c ch s' ch' site
   reach step (init k p0 p1) s -> tpc (th1 s) = PPopLoadTail c -> step s 1 ch = Some (s', ch', site) ->
   (occupancy s = 0 /\ res (th1 s') = (r_popfail, 0) :: res (th1 s)) \/
   (0 < occupancy s /\ tpc (th1 s') = PPopRead c).
-Proof. intros k p0 p1 s c ch s' ch' site (Kb & F0 & F1) R. apply pop_ok_iff_not_empty_inv. eapply spsc_inv; eauto. Qed.
+Proof. exact pop_ok_iff_not_empty_as_observed. Qed.
 Print Assumptions C35_pop_ok_iff_not_empty_as_observed.
 
 (* batch operations: the free space / element count computed from the two loaded indices (with the wrapped-index case
    split of the code) is exactly capacity - occupancy / occupancy at the second load *)
 Theorem C35_push_batch_space_as_observed : forall k p0 p1 s vs ct, C35_domain k p0 p1 ->
   reach step (init k p0 p1) s -> tpc (th0 s) = PBLoadHead vs ct -> avail_push (K s) ct (head s) = K s - 1 - occupancy s.
-Proof. intros k p0 p1 s vs ct (Kb & F0 & F1) R. apply pushb_avail_as_observed_inv. eapply spsc_inv; eauto. Qed.
+Proof. exact pushb_avail_as_observed. Qed.
 Print Assumptions C35_push_batch_space_as_observed.
 
 Theorem C35_pop_batch_count_as_observed : forall k p0 p1 s m c, C35_domain k p0 p1 ->
   reach step (init k p0 p1) s -> tpc (th1 s) = PQLoadTail m c -> avail_pop (K s) c (tail s) = occupancy s.
-Proof. intros k p0 p1 s m c (Kb & F0 & F1) R. apply popb_avail_as_observed_inv. eapply spsc_inv; eauto. Qed.
+Proof. exact popb_avail_as_observed. Qed.
 Print Assumptions C35_pop_batch_count_as_observed.
 
 (* lifetimes: the ledger never records a misuse (no placement-new over a live element, no destructor on a dead or
@@ -69,7 +69,7 @@ Theorem C35_lifetimes : forall k p0 p1 s, C35_domain k p0 p1 -> reach step (init
              lget (led s) (p mod K s) = Alive) /\
   (forall p, zlen (pushed s) + zlen (wl (tpc (th0 s))) <= p < zlen (popped s) + zlen (rl (tpc (th1 s))) + K s ->
              is_live (lget (led s) (p mod K s)) = false).
-Proof. intros k p0 p1 s (Kb & F0 & F1) R. apply lifetimes_inv. eapply spsc_inv; eauto. Qed.
+Proof. exact spsc_lifetimes. Qed.
 Print Assumptions C35_lifetimes.
 
 (* ~SPSCRingBuffer() run in a state where no transfer is in flight leaves no slot with a live element and records no
@@ -77,35 +77,36 @@ Print Assumptions C35_lifetimes.
 Theorem C35_destructor_balanced : forall k p0 p1 s, C35_domain k p0 p1 -> reach step (init k p0 p1) s ->
   rl (tpc (th1 s)) = [] -> wl (tpc (th0 s)) = [] ->
   l_errs (dtor s) = [] /\ forall i, 0 <= i < K s -> is_live (lget (dtor s) i) = false.
-Proof. intros k p0 p1 s (Kb & F0 & F1) R. apply dtor_balanced_inv. eapply spsc_inv; eauto. Qed.
+Proof. exact spsc_dtor_balanced. Qed.
 Print Assumptions C35_destructor_balanced.
 
 (* `increment` as written (& kMask when the size is a power of two, % otherwise) is +1 modulo the size *)
 Theorem C35_increment_is_succ_mod : forall k i, 0 < k < 2 ^ 63 -> 0 <= i < k -> increment k i = (i + 1) mod k.
-Proof. intros k i Hk Hi. apply increment_mod; lia. Qed.
+Proof. exact increment_is_succ_mod. Qed.
 Print Assumptions C35_increment_is_succ_mod.
 
 (* the full inductive invariant, for reference *)
 Theorem C35_invariant : forall k p0 p1 s, C35_domain k p0 p1 -> reach step (init k p0 p1) s -> Inv s.
-Proof. intros k p0 p1 s (Kb & F0 & F1) R. eapply spsc_inv; eauto. Qed.
+Proof. exact spsc_reach_inv. Qed.
 Print Assumptions C35_invariant.
 
 (* every state the executable scheduler visits is reachable, so the theorems apply to the runs compared with the real code *)
 Theorem C35_run_reach : forall fuel k p0 p1 sched,
   reach step (init k p0 p1) (fst (fst (run_spsc fuel k p0 p1 sched))).
-Proof. intros. apply run_reach. apply reach_refl. Qed.
+Proof. exact spsc_run_reach. Qed.
 Print Assumptions C35_run_reach.
 
 (* non-vacuity: a script in the domain on a 3-slot ring (capacity 2, not a power of two) that fills the ring, has a push
    rejected, wraps the indices, and ends with delivered ++ contents = accepted, all non-trivial *)
 Example C35_nonvacuous :
   let p0 := [OPush 1; OPushBatch [2; 3; 4]; OPush 5; OPush 6] in
-  let p1 := [OPop; OPopBatch 2; OPop] in
-  let sched := [0;0;0;0;0;0;0;0;0;0;0;0;0;1;1;1;1;1;1;1;1;1;0;0;0;0;0;0;0;0;1;1;1;1;1;1;1;1;1;1;1;1] in
+  let p1 := [OPop; OPopBatch 1; OSize] in
+  let sched := [0;0;0;0;0;0;0;0;0;0;0;1;1;1;1;1;0;0;0;0;1;1;1;1;1;1;1;1;1;1;1;1] in
   C35_domain 3 p0 p1 /\
   let '(s, tr, st) := run_spsc 100 3 p0 p1 sched in
-  st = SDone /\ pushed s = [1; 2; 5; 6] /\ popped s = [1; 2; 5] /\ contents s = [6] /\
-  rev (res (th0 s)) = [(1,1); (1,2); (5,1); (1,5); (1,6)] /\ head s = 0 /\ tail s = 1.
+  st = SDone /\ pushed s = [1; 2; 6] /\ popped s = [1; 2] /\ contents s = [6] /\
+  rev (res (th0 s)) = [(1,1); (1,2); (5,1); (2,5); (1,6)] /\
+  rev (res (th1 s)) = [(3,1); (3,2); (6,1); (7,1)] /\ head s = 2 /\ tail s = 0.
 Proof.
   cbv zeta. split.
   - split; [split; [discriminate | reflexivity]|]. split; repeat constructor; cbn; discriminate.
